@@ -155,8 +155,18 @@ class C12(TalCheck):
                 continue
             cls = type(r0["raised"][-1][2]) if r0["raised"] else None
             done += 1
-            for peek in (False, True):
-                def inner(peek=peek):
+            # (depth: the outer template renders itself that many times
+            # before the helper gets to the case's template - the same call
+            # site is then on the stack more than once)
+            for peek, depth in ((False, 0), (True, 0), (True, 2)):
+                want = want[:len(want) - want.count(site)] + \
+                    [site] * (depth + 1)
+                level = [0]
+
+                def inner(peek=peek, depth=depth, level=level):
+                    if level[0] < depth:
+                        level[0] += 1
+                        return outer.render(inner=inner)
                     r1 = run_real(template, tmpl, plan, hcfg)
                     if r1["raise"] is None:
                         return r1["out"]
